@@ -255,12 +255,13 @@ let show_ref (cfg : cfg) (id : String.t) (o : routcome) =
   | RDiverged -> Printf.sprintf "%s\tout=diverged" id
 
 let ref_mode = ref false
+let lrspec_mode = ref false
 
 (* ---------- main ---------- *)
 let quirks = ref faithful
 let set_quirks (b : String.t) =
   let g i = String.length b > i && b.[i] = '1' in
-  quirks := { q_lit_eof = g 0; q_stale_ctx = g 1; q_recover_scope = g 2; q_memo_nocharge = g 3 }
+  quirks := { q_lit_eof = g 0; q_stale_ctx = g 1; q_recover_scope = g 2; q_memo_nocharge = g 3; q_memo_label = (String.length b <= 4 || b.[4] = '1'); q_lr_memo_state = (String.length b <= 5 || b.[5] = '1') }
 
 let run_case (fuel : int) (sx : sexp) : String.t =
   match sx with
@@ -280,7 +281,8 @@ let run_case (fuel : int) (sx : sexp) : String.t =
         cData = hexb inp;
         cG = List.map rule_of rules;
         cE = env_of_blocks (List.map block_of blocks) } in
-      if !ref_mode then show_ref cfg id (rparse (rd cfg) (nat_of_int fuel))
+      if !lrspec_mode then show_ref cfg id (lrparse (rd cfg) (nat_of_int fuel))
+      else if !ref_mode then show_ref cfg id (rparse (rd cfg) (nat_of_int fuel))
       else show_outcome id (parse cfg (nat_of_int fuel))
   | _ -> failwith "bad case"
 
@@ -489,7 +491,8 @@ let () =
               ("-var", Arg.Set_string var, "variable name for -embed");
               ("-bl", Arg.Set_string bl, "file of classes: print Basic-Latin tables of the model");
               ("-decode", Arg.Set_string dec, "file of hex strings: print decode results");
-              ("-quirks", Arg.String set_quirks, "4 bits: lit_eof stale_ctx recover_scope memo_nocharge (default 1111 = faithful)");
+              ("-quirks", Arg.String set_quirks, "6 bits: lit_eof stale_ctx recover_scope memo_nocharge memo_label lr_memo_state (default 111111 = faithful)");
+              ("-lrspec", Arg.Set lrspec_mode, "evaluate the specification with left-recursive rules read as iterations (Spec.LRIter)");
               ("-ref", Arg.Set ref_mode, "evaluate the specification (Ref) instead of the implementation model");
               ("-fuel", Arg.Set_int fuel, "fuel") ] (fun _ -> ()) "driver";
   if !dec <> "" then (decode_mode !dec; exit 0);
